@@ -154,7 +154,49 @@ let fs_mode file =
   with End_of_file -> ());
   close_in ic
 
+(* ------------------------------------------------------------------ config mode *)
+let coq_string_of (s : Stdlib.String.t) =
+  let n = String.length s in
+  let rec go i = if i >= n then EmptyString else
+    let c = Char.code s.[i] in
+    let b k = (c lsr k) land 1 = 1 in
+    String (Ascii (b 0, b 1, b 2, b 3, b 4, b 5, b 6, b 7), go (i + 1)) in
+  go 0
+let rec ocaml_string_of = function
+  | EmptyString -> ""
+  | String (Ascii (b0, b1, b2, b3, b4, b5, b6, b7), r) ->
+    let v x k = if x then 1 lsl k else 0 in
+    String.make 1 (Char.chr (v b0 0 + v b1 1 + v b2 2 + v b3 3 + v b4 4 + v b5 5 + v b6 6 + v b7 7)) ^ ocaml_string_of r
+
+(* S <id> <epoch|-> <item1,item2,...|->   : selection + initialisation
+   V <id> <check> <brp> <errors> <mis> <repl> <rew> : verdict *)
+let cfg_mode file =
+  let ic = open_in file in
+  (try
+    while true do
+      let line = input_line ic in
+      match String.split_on_char ' ' line with
+      | ["S"; id; epoch; items] ->
+        let filter = if items = "-" then [] else List.map coq_string_of (String.split_on_char ',' items) in
+        let epoch = sanitize_epoch (if epoch = "-" then None else Some (z_of_string epoch)) in
+        (match requested_handlers filter with
+         | None -> Printf.printf "%s SELERR\n" id
+         | Some (l, strict) ->
+           (match make_handlers l strict epoch with
+            | None -> Printf.printf "%s INITERR %s\n" id (String.concat "," (List.map ocaml_string_of l))
+            | Some hs -> Printf.printf "%s OK %s | %s | %s\n" id (String.concat "," (List.map ocaml_string_of l)) (if strict then "strict" else "lenient")
+                           (String.concat "," (List.map ocaml_string_of hs))))
+      | ["V"; id; check; brp; errors; mis; repl; rew] ->
+        let n s = n_of_int (int_of_string s) in
+        Printf.printf "%s %s\n" id (if main_verdict (check = "1") (brp = "1") (n errors) (n mis) (n repl) (n rew) then "FAIL" else "PASS")
+      | _ -> ()
+    done
+  with End_of_file -> ());
+  close_in ic
+
 let rec nat_of_int_ n = if n <= 0 then O else S (nat_of_int_ (n - 1))
 
 let () =
-  if Array.length Sys.argv > 3 && Sys.argv.(3) = "fs" then fs_mode Sys.argv.(1) else bytes_mode ()
+  if Array.length Sys.argv > 3 && Sys.argv.(3) = "fs" then fs_mode Sys.argv.(1)
+  else if Array.length Sys.argv > 3 && Sys.argv.(3) = "cfg" then cfg_mode Sys.argv.(1)
+  else bytes_mode ()
